@@ -223,7 +223,7 @@ def agree(real, m, url, root, sd):
 
 
 def double_resolve(p):
-    return p.resolve().resolve()
+    return p.resolve()
 
 
 def correspondence(run, n):
@@ -282,3 +282,40 @@ def containment_oracle(rng, n):
     finally:
         shutil.rmtree(base, ignore_errors=True)
     return out
+
+
+def replay_containment(where):
+    """rebuild the recorded tree (files get their recorded names as content) and re-run the oracle on the one link"""
+    base = Path(os.path.realpath(str(gen_site.scratch_root())))
+    try:
+        for line in where["tree"]:
+            name, _, target = line.partition(" -> ")
+            p = base / name
+            p.parent.mkdir(parents=True, exist_ok=True)
+            if target:
+                os.symlink(target, p)
+        for line in where["tree"]:
+            name, _, target = line.partition(" -> ")
+            p = base / name
+            if not target and not p.exists() and not p.is_symlink():
+                if any(other.startswith(name + "/") for other in where["tree"]):
+                    p.mkdir(parents=True, exist_ok=True)
+                else:
+                    p.write_bytes(("content of " + name).encode())
+        root = base / "site"
+        sd = base / where["source_dir"]
+        rr, pages = page_keys(root)
+        real = real_rewrite(root, sd / "recipe.md", where["url"], pages if where["mode"] == "link" else {}, embed=(where["mode"] == "embed"))
+        out = []
+        rrs = os.path.realpath(root)
+        if real[0] == "asset" and not (os.path.realpath(real[1]) + os.sep).startswith(rrs + os.sep):
+            out.append(("C16:bytes-of-a-file-outside-the-root-served", "%r served from %s" % (where["url"], os.path.realpath(real[1]))))
+        if real[0] == "embedded":
+            data = base64.b64decode(real[1].split(";base64,", 1)[1])
+            if data.startswith(b"content of ") and not (os.path.realpath(base / data[len(b"content of "):].decode()) + os.sep).startswith(rrs + os.sep):
+                out.append(("C16:bytes-of-a-file-outside-the-root-served", "%r embeds %r" % (where["url"], data)))
+        if real[0] == "raises":
+            out.append(("C16:link-rewriting-raises", real[1]))
+        return out
+    finally:
+        shutil.rmtree(base, ignore_errors=True)
